@@ -1,0 +1,235 @@
+//! Verification hooks. Compiled only with `--cfg pearl_verif`; with the flag off
+//! nothing of this module exists and no call site is compiled in.
+//!
+//! Three facilities, all process-global:
+//! * a quiescence probe (`PROBE`): gauges of background activity, so that a driver can
+//!   wait for "no background work" without sleeping;
+//! * an event tap (`Tap::event`): linearization-point events emitted while the lock that
+//!   protects the change is still held;
+//! * an I/O tap (`Tap::io`): every file operation issued by the storage, with the
+//!   possibility to fail it, to shorten a write, or to block (gate) it.
+//!
+//! Every event gets a number from one global atomic counter (`next_seq`), never a clock.
+#![allow(missing_docs)]
+
+use std::io::{Error as IoError, Result as IoResult};
+use std::os::unix::fs::FileExt;
+use std::path::Path;
+use std::sync::atomic::{AtomicI64, AtomicU64, Ordering};
+use std::sync::{Arc, RwLock};
+
+/// Gauges of background activity.
+#[derive(Debug)]
+pub struct Probe {
+    /// messages sent to the observer worker and not yet completely processed
+    pub msgs: AtomicI64,
+    /// running index dump tasks
+    pub dump_tasks: AtomicI64,
+    /// running fsync tasks
+    pub fsync_tasks: AtomicI64,
+    /// running `spawn_blocking` I/O closures
+    pub blocking: AtomicI64,
+    /// 1 while a deferred index dump is registered in the worker
+    pub deferred: AtomicI64,
+    /// number of observer workers whose `run` future is alive
+    pub workers_alive: AtomicI64,
+    /// number of observer workers started since process start
+    pub workers_started: AtomicI64,
+    /// number of observer workers that left `run` by unwinding (panic)
+    pub workers_panicked: AtomicI64,
+}
+
+pub static PROBE: Probe = Probe {
+    msgs: AtomicI64::new(0),
+    dump_tasks: AtomicI64::new(0),
+    fsync_tasks: AtomicI64::new(0),
+    blocking: AtomicI64::new(0),
+    deferred: AtomicI64::new(0),
+    workers_alive: AtomicI64::new(0),
+    workers_started: AtomicI64::new(0),
+    workers_panicked: AtomicI64::new(0),
+};
+
+impl Probe {
+    /// No message queued or in processing, no background task, no blocking closure.
+    /// A registered deferred dump is reported separately (`deferred`).
+    pub fn quiescent(&self) -> bool {
+        self.msgs.load(Ordering::SeqCst) == 0
+            && self.dump_tasks.load(Ordering::SeqCst) == 0
+            && self.fsync_tasks.load(Ordering::SeqCst) == 0
+            && self.blocking.load(Ordering::SeqCst) == 0
+    }
+}
+
+/// RAII increment of a gauge.
+#[derive(Debug)]
+pub struct Gauge(&'static AtomicI64);
+
+impl Gauge {
+    pub fn enter(g: &'static AtomicI64) -> Self {
+        g.fetch_add(1, Ordering::SeqCst);
+        Gauge(g)
+    }
+}
+
+impl Drop for Gauge {
+    fn drop(&mut self) {
+        self.0.fetch_sub(1, Ordering::SeqCst);
+    }
+}
+
+/// Guard placed at the top of `ObserverWorker::run`.
+#[derive(Debug)]
+pub struct WorkerGuard;
+
+impl WorkerGuard {
+    pub fn enter() -> Self {
+        PROBE.workers_started.fetch_add(1, Ordering::SeqCst);
+        PROBE.workers_alive.fetch_add(1, Ordering::SeqCst);
+        WorkerGuard
+    }
+}
+
+impl Drop for WorkerGuard {
+    fn drop(&mut self) {
+        if std::thread::panicking() {
+            PROBE.workers_panicked.fetch_add(1, Ordering::SeqCst);
+            // messages that will never be processed must not block quiescence waits
+            event("worker_exit", &[("panic", 1)], None);
+        } else {
+            event("worker_exit", &[("panic", 0)], None);
+        }
+        PROBE.deferred.store(0, Ordering::SeqCst);
+        PROBE.workers_alive.fetch_sub(1, Ordering::SeqCst);
+    }
+}
+
+static SEQ: AtomicU64 = AtomicU64::new(0);
+
+/// Next number of the single global event order.
+pub fn next_seq() -> u64 {
+    SEQ.fetch_add(1, Ordering::SeqCst) + 1
+}
+
+#[derive(Debug, Clone, Copy, PartialEq, Eq)]
+pub enum IoOp {
+    Create,
+    Open,
+    /// offset reservation of an append (`size.fetch_add`)
+    Reserve,
+    /// append write at a reserved offset
+    Write,
+    /// completion of the append write
+    WriteDone,
+    /// positional write (index header rewrite)
+    WriteAt,
+    WriteAtDone,
+    /// `fsyncdata` entered: `off` = file size read before the sync
+    SyncBegin,
+    /// about to call `sync_all`
+    Sync,
+    /// `sync_all` returned: `len` = 1 on success, 0 on error; `off` = size published
+    SyncEnd,
+    /// truncation of an existing file to zero (index re-creation)
+    Truncate,
+    Rename,
+    Remove,
+}
+
+#[derive(Debug)]
+pub struct IoEvent<'a> {
+    pub seq: u64,
+    pub op: IoOp,
+    pub path: &'a Path,
+    pub path2: Option<&'a Path>,
+    pub off: u64,
+    pub len: u64,
+    pub bufs: &'a [&'a [u8]],
+}
+
+#[derive(Debug, Clone, Copy, PartialEq, Eq)]
+pub enum Verdict {
+    Proceed,
+    /// fail the operation with this errno, nothing is done
+    Fail(i32),
+    /// writes only: write the first `n` bytes, then fail with ENOSPC
+    Short(u64),
+}
+
+pub trait Tap: Send + Sync {
+    /// Called before a file operation (or after it for the `*Done`/`SyncEnd` events).
+    /// May block. The verdict is honoured for Create, Open, Write, WriteAt, Sync,
+    /// Truncate, Rename and Remove.
+    fn io(&self, _ev: &IoEvent<'_>) -> Verdict {
+        Verdict::Proceed
+    }
+    /// Linearization-point event.
+    fn event(&self, _seq: u64, _name: &'static str, _fields: &[(&'static str, u64)], _key: Option<&[u8]>) {}
+}
+
+static TAP: RwLock<Option<Arc<dyn Tap>>> = RwLock::new(None);
+
+pub fn set_tap(tap: Option<Arc<dyn Tap>>) {
+    *TAP.write().expect("tap lock") = tap;
+}
+
+fn tap() -> Option<Arc<dyn Tap>> {
+    TAP.read().expect("tap lock").clone()
+}
+
+pub fn event(name: &'static str, fields: &[(&'static str, u64)], key: Option<&[u8]>) {
+    if let Some(t) = tap() {
+        t.event(next_seq(), name, fields, key);
+    }
+}
+
+fn errno(e: i32) -> IoError {
+    IoError::from_raw_os_error(e)
+}
+
+/// Generic operation hook. `Err` = injected failure.
+pub(crate) fn io(op: IoOp, path: &Path, path2: Option<&Path>, off: u64, len: u64) -> IoResult<()> {
+    if let Some(t) = tap() {
+        let ev = IoEvent { seq: next_seq(), op, path, path2, off, len, bufs: &[] };
+        match t.io(&ev) {
+            Verdict::Proceed | Verdict::Short(_) => Ok(()),
+            Verdict::Fail(e) => Err(errno(e)),
+        }
+    } else {
+        Ok(())
+    }
+}
+
+/// Write hook. `None` = go on with the real write; `Some(r)` = the hook has decided the
+/// outcome (injected failure, after a partial write when shortened).
+pub(crate) fn write(
+    op: IoOp,
+    path: &Path,
+    file: &std::fs::File,
+    off: u64,
+    bufs: &[&[u8]],
+) -> Option<IoResult<()>> {
+    let t = tap()?;
+    let len = bufs.iter().map(|b| b.len() as u64).sum();
+    let ev = IoEvent { seq: next_seq(), op, path, path2: None, off, len, bufs };
+    match t.io(&ev) {
+        Verdict::Proceed => None,
+        Verdict::Fail(e) => Some(Err(errno(e))),
+        Verdict::Short(n) => {
+            let mut left = n.min(len);
+            let mut pos = off;
+            for b in bufs {
+                if left == 0 {
+                    break;
+                }
+                let take = (b.len() as u64).min(left) as usize;
+                if let Err(e) = file.write_all_at(&b[..take], pos) {
+                    return Some(Err(e));
+                }
+                pos += take as u64;
+                left -= take as u64;
+            }
+            Some(Err(errno(28))) // ENOSPC after a partial write
+        }
+    }
+}
